@@ -13,6 +13,11 @@ N2  a `try` whose handlers do nothing but re-raise (`except ...: raise`, optiona
 N3  inside functions `x: T = v` (plain name) becomes `x = v`; the annotation is kept on the node
     (`sa_annotation`) for the type resolver.
 
+N4  calls of functions / methods whose every definition in the analysed packages has the same
+    positional parameter list: keyword arguments that continue the positional prefix in order
+    become positional (`f(a, y=b)` -> `f(a, b)` for `def f(x, y)`); rules then read arguments by
+    position.
+
 Every rewrite is local, keeps evaluation order, and leaves line numbers of the surviving nodes
 untouched.  (Found necessary by the `--retvar` false-alarm probe of tools/refactor_twin.py.)
 """
@@ -178,11 +183,57 @@ class _N3(ast.NodeTransformer):
         return node
 
 
-def normalise(tree: ast.Module) -> tuple[ast.Module, dict[str, int]]:
+def collect_signatures(trees: list[ast.Module]) -> dict[str, list[str] | None]:
+    """name -> positional parameter names (without self / cls) when EVERY definition of that name agrees, else None"""
+    sigs: dict[str, list[str] | None] = {}
+    for tree in trees:
+        for n in ast.walk(tree):
+            if isinstance(n, (ast.FunctionDef, ast.AsyncFunctionDef)):
+                a = n.args
+                names = [x.arg for x in a.posonlyargs + a.args]
+                if names and names[0] in ("self", "cls"):
+                    names = names[1:]
+                val: list[str] | None = names if not a.vararg and not a.posonlyargs else None
+                if n.name in sigs and sigs[n.name] != val:
+                    sigs[n.name] = None
+                elif n.name not in sigs:
+                    sigs[n.name] = val
+    return sigs
+
+
+class _N4(ast.NodeTransformer):
+    def __init__(self, sigs) -> None:
+        self.sigs = sigs
+        self.count = 0
+
+    def visit_Call(self, node):
+        self.generic_visit(node)
+        nm = node.func.attr if isinstance(node.func, ast.Attribute) else node.func.id if isinstance(node.func, ast.Name) else None
+        if nm is None or nm[:1].isupper() or nm.startswith("__") or self.sigs.get(nm) is None:
+            return node
+        if any(isinstance(a, ast.Starred) for a in node.args) or any(k.arg is None for k in node.keywords):
+            return node
+        params = self.sigs[nm]
+        kws = {k.arg: k for k in node.keywords}
+        i = len(node.args)
+        while i < len(params) and params[i] in kws:
+            node.args.append(kws[params[i]].value)
+            node.keywords.remove(kws[params[i]])
+            i += 1
+            self.count += 1
+        return node
+
+
+def normalise(tree: ast.Module, sigs: dict | None = None) -> tuple[ast.Module, dict[str, int]]:
+    n4 = 0
+    if sigs:
+        t4 = _N4(sigs)
+        tree = t4.visit(tree)
+        n4 = t4.count
     t3 = _N3()
     tree = t3.visit(tree)
     t2 = _N2()
     tree = t2.visit(tree)
     t = _N1()
     tree = t.visit(tree)
-    return tree, {"N1": t.count, "N2": t2.count, "N3": t3.count}
+    return tree, {"N1": t.count, "N2": t2.count, "N3": t3.count, "N4": n4}
